@@ -30,6 +30,33 @@ add("F22", "C02", "fixed", "'2 * -(3)' failed with 'Unary works with number': no
 add("F24", "C02", "fixed", "'1M' evaluated to 1000000 Meter and '1k + 1M' was an error: the magnitude suffix was tokenised a second time as a unit name",
     c02(B("Add", L(1, suffix="k"), L(1, suffix="M"))), commit="fad0874")
 
+# ---- C01 (panic sites; all repaired) ---------------------------------------------------------
+def c01(text, lang="en", cfg=None):
+    return {"sub": "total", "case": {"cfg": cfg or {}, "lang": lang, "text": text, "family": "corpus"}}
+add("F01", "C01", "fixed", "atoms with a malformed payload ([NUMBER:x], [MONEY:5], [TIME:99999]) panicked in get_atom", c01("[NUMBER:x]\n[PERCENT:x]\n[MONEY:5]\n[MONEY:x;usd]\n[TIME:99999]\n[TIME:abc]"), commit="21e9c5a")
+add("F02", "C01", "fixed", "0x/0b/0o literals of more than 63 bits panicked on from_str_radix(..).unwrap()", c01("0xFFFFFFFFFFFFFFFFFF"), commit="f97d99a")
+add("F03", "C01", "fixed", "'1.2.3%' panicked on parse::<f64>().unwrap() in the percent lexer", c01("1.2.3%"), commit="f90646d")
+add("F04", "C01", "fixed", "an unknown language tag panicked on constant_pair/alias/word_group .get(lang).unwrap()", c01("1 day to {GROUP:g}", lang="xx"), commit="46cc38e")
+add("F05", "C01", "fixed", "date +/- months or years panicked in NaiveDate::from_ymd (month 0, missing day)", c01("15 nov 2021 + 1 month\n31 jan 2021 + 1 month\n29 feb 2020 + 1 year\n15 mar 2021 - 3 months"), commit="f248311")
+add("F06", "C01", "fixed", "'1/1/2040 at 24' panicked in NaiveTime::from_hms", c01("1/1/2040 at 24\n1/1/2040 at 11:30 as unix"), commit="046a5b1")
+add("F07", "C01", "fixed", "over-long durations overflowed (multiply with overflow, TimeDelta out of bounds)", c01("99999999999999999999 days\n9999999999999 years\n999999999999 weeks"), commit="7b373ba")
+add("F08", "C01", "fixed", "'99999999999999 to date' panicked in NaiveDateTime::from_timestamp", c01("99999999999999 to date"), commit="938ff6a")
+add("F09", "C01", "fixed", "10 or more decimal digits panicked on 10_u32.pow(digits) in format_number", c01("1,5", cfg={"num": [10, True, True]}), commit="b83d037")
+add("F13", "C01", "fixed", "date-time +/- a duration leaving the supported range panicked inside chrono", c01("-62135596801 to date - 300000 years"), commit="7953af7")
+
+# ---- C06 -------------------------------------------------------------------------------------
+def mlit(v, cur, spelling, suffix=None, sign=0):
+    return {"amount": {"v": float(v), "sign": sign, "group": False}, "suffix": suffix, "cur": cur, "spelling": spelling}
+add("F50", "C06", "fixed", "the configured Cyrillic alias 'лв' could never match the money patterns ([a-zA-Z]{2,}): '10 лв' was the number 10",
+    {"sub": "money", "case": {"shape": {"Literal": mlit(10, "bgn", {"AliasAfter": ["лв", 1, 0, 0]})}, "seps": 0}}, commit="a22987f")
+add("F51", "C06", "open", "a money literal '<amount><k|M> <symbol>' ends before its currency: '1M $ to pln' stays $1,000,000 and '1M $ * 2' drops '* 2'; '1,5k wst' is an error (pinned by test convert_money_6, which fixes the token count of '2M eur')",
+    {"sub": "money", "case": {"shape": {"Convert": [mlit(1, "usd", {"SymAfter": 1}, suffix="M"), 1, "pln", 0, 0]}, "seps": 0}},
+    signature="first money literal has a magnitude suffix and its symbol after a blank (or a code that is also a zone name) AND the result is exactly that first literal (rest of line dropped) / Err(No more token)")
+
+add("F51", "C05", "open", "a money literal '<amount><k|M> <symbol>' ends before its currency, so '1k $ - 10%' stays $1,000 (see C06; pinned by test convert_money_6)",
+    {"sub": "percent", "case": {"phrase": "Minus", "x": {"Money": mlit(1, "usd", {"SymAfter": 1}, suffix="k")}, "b": {"Plain": {"v": 1.0, "sign": 0, "group": False}}, "p": {"p": {"v": 10.0, "sign": 0, "group": False}, "prefix": False}, "op_space": [1, 1], "seps": 0}},
+    signature="X (or B) is a money literal with magnitude suffix and symbol after a blank AND the result is X alone / Err(No more token)")
+
 EXTRA = "tools/kf_extra.py"
 try:
     exec(open("/verif/" + EXTRA).read())
